@@ -682,7 +682,8 @@ const RAW_ATOMS: &[&str] = &[
     "declare", "resetRandom", "program", "init", "memory", "def", "call", "end1", "looper", "C", "x", "Z", "c", "é", "٣", "a٣", "$",
     "#", "# c\n", "random", "ite", "signExt", "n", "99999999999999999999", "9223372036854775807", "9223372036854775808",
     "0x8000000000000000", "0b", "0x", "_", "\u{b}", "\u{feff}", "\u{c}", "bits(65,1)", "bits(64,1)", "loop(i,2)\n", "end loop\n",
-    "while(1)\n", "end while\n", "A B\n", "(1 ! 2)", "f(1)", "ite(1,2)", "random()", "((", "))",
+    "while(1)\n", "end while\n", "A B\n", "(1 ! 2)", "f(1)", "ite(1,2)", "random()", "((", "))", "\u{a0}", "\u{3000}", "\u{2028}", "\u{85}",
+    "A\u{a0}B", "1 ~ 2", "3 !1", "repeat(3) \n", "repeat(2)\t\r\n", "\u{feff}A A\n",
 ];
 
 /// arbitrary text over an alphabet rich in token boundaries
